@@ -19,6 +19,8 @@ func main() {
 		cmdVerify(os.Args[2:])
 	case "check":
 		cmdCheck(os.Args[2:])
+	case "replay":
+		cmdReplay(os.Args[2:])
 	default:
 		fmt.Fprintln(os.Stderr, "unknown command", os.Args[1])
 		os.Exit(2)
@@ -47,6 +49,7 @@ func cmdVerify(args []string) {
 	dump := fs.String("dump", "", "directory to dump SMT scripts of failed obligations")
 	specDir := fs.String("spec", "/verif/spec", "directory with *.spec files")
 	showAll := fs.Bool("v", false, "print every obligation")
+	dumpAll := fs.Bool("dumpall", false, "dump the SMT script of every obligation (with -dump)")
 	iface := fs.String("iface", "", "verify all implementers against this interface-level contract key (iface:pkg.I.M)")
 	only := fs.String("only", "", "with -iface: restrict to functions whose key contains this string")
 	fs.Parse(args)
@@ -76,11 +79,21 @@ func cmdVerify(args []string) {
 			os.Exit(2)
 		}
 		nOut := 0
+		var tasks []verifyTask
 		for _, fn := range eng.ifaceTargets(*iface) {
+			fn := fn
 			if *only != "" && !strings.Contains(funcKey(fn), *only) {
 				continue
 			}
-			vc := eng.verifyAgainstIface(fn, ifc, eng.contracts[funcKey(fn)])
+			if _, ex := eng.excluded[funcKey(fn)]; ex {
+				continue
+			}
+			tasks = append(tasks, verifyTask{funcKey(fn), func() *VC { return eng.verifyAgainstIface(fn, ifc, eng.contracts[funcKey(fn)]) }})
+		}
+		vcs := runTasks(tasks, 8)
+		for i, vc := range vcs {
+			fn := vc.fn
+			_ = i
 			if vc.outside != "" {
 				nOut++
 				fmt.Printf("!! %s outside subset: %s\n", funcKey(fn), vc.outside)
@@ -94,6 +107,7 @@ func cmdVerify(args []string) {
 		fmt.Printf("%d targets outside subset\n", nOut)
 		keys = nil
 	}
+	var ftasks []verifyTask
 	for _, k := range keys {
 		fn := eng.lookupFunc(k)
 		if fn == nil {
@@ -105,7 +119,10 @@ func cmdVerify(args []string) {
 			fmt.Printf("-- %s: trusted (not verified)\n", k)
 			continue
 		}
-		vc := eng.verifyFunction(fn, fc)
+		ftasks = append(ftasks, verifyTask{k, func() *VC { return eng.verifyFunction(fn, fc) }})
+	}
+	for i, vc := range runTasks(ftasks, 8) {
+		k := ftasks[i].key
 		if vc.outside != "" {
 			fmt.Printf("!! %s outside subset: %s\n", k, vc.outside)
 			continue
@@ -123,13 +140,13 @@ func cmdVerify(args []string) {
 		if !o.ok() {
 			bad++
 		}
-		if *showAll || !o.ok() {
+		if *showAll || !o.ok() || *dumpAll {
 			mark := "ok  "
 			if !o.ok() {
 				mark = "FAIL"
 			}
 			fmt.Printf("%s %-70s %-8s %-18s %.2fs  %s\n", mark, o.Name, o.Result, o.Solver, o.Seconds, o.Pos)
-			if !o.ok() && *dump != "" {
+			if (!o.ok() || *dumpAll) && *dump != "" {
 				os.MkdirAll(*dump, 0o755)
 				fn := *dump + "/" + sanitize(o.Name) + ".smt2"
 				os.WriteFile(fn, []byte(o.vc.finalScript(o, true)), 0o644)
